@@ -54,6 +54,9 @@ class Script:
         return vals.reshape(size) if size is not None else float(vals[0])
 
 
+KEEP = {}
+
+
 def inv_stub(g, y):
     return np.asarray(g, dtype=float) + DEN * np.asarray(y, dtype=float) - 32.0
 
@@ -92,14 +95,19 @@ def one(rng, quick):
     sc = Script([n1, n2], stream)
     saved = (np.random.poisson, np.random.uniform, np.random.normal)
     try:
-        atoms = [((1, 1), 1), ((-1, -1), 1), ((3, -3), 1), ((-3, 3), 1)]
-        model = atomic.atom_copula_model(atoms, 2, finite_variation=True)
+        # most scripts re-use the simulator object of the previous one (re-initialised for the new product and the new
+        # diffusion coefficients), some start from a fresh one
+        if KEEP.get("proc") is None or rng.random() < 0.3:
+            atoms = [((1, 1), 1), ((-1, -1), 1), ((3, -3), 1), ((-3, 3), 1)]
+            model = atomic.atom_copula_model(atoms, 2, finite_variation=True)
+            model.copula.inverse_conditional_distribution = inv_stub
+            model.inverse_tail_integral = lambda i, x: ivt_stub(i, x)
+            KEEP["model"], KEEP["proc"] = model, LevyCopula2dSeriesRepresentation(model, tau=TAU)
+            hdr["fresh"] = 1
+        model, proc = KEEP["model"], KEEP["proc"]
         for m, s in zip(model.models, sig):
             m.levy_triplet.sigma = s * U
-        model.copula.inverse_conditional_distribution = inv_stub
-        model.inverse_tail_integral = lambda i, x: ivt_stub(i, x)
         np.random.poisson, np.random.uniform, np.random.normal = sc.poisson, sc.uniform, sc.normal
-        proc = LevyCopula2dSeriesRepresentation(model, tau=TAU)
         proc.initialisation(product_for(nint + 1, dates[-1]))
         npaths = 2
         for _ in range(npaths):
@@ -120,6 +128,7 @@ def one(rng, quick):
             e["bad"] = count_bad(e)
             ev.append(e)
     except Exception as ex:
+        KEEP.clear()
         ev.append({"e": "Raise", "what": type(ex).__name__ + ": " + str(ex)[:80]})
     finally:
         np.random.poisson, np.random.uniform, np.random.normal = saved
